@@ -2878,6 +2878,8 @@ impl fmt::Debug for GeneratorState {
 pub enum GeneratorStatus {
     /// Not yet started
     Suspended,
+    /// Currently executing (between a resume and the next yield or completion)
+    Running,
     /// Completed (returned or exhausted)
     Completed,
 }
